@@ -20,7 +20,7 @@ for p in props:
     i=p["id"]
     if i in claimed:
         lvl,text,tech=claimed[i]
-        if i in ("C12","C15","C17","C18"):
+        if i in ("C05","C12","C15","C17","C18"):
             tech+="; coverage-guided fuzzing (libFuzzer via cargo-fuzz, structured decoding, oracle inside the target): saved-corpus replay in the quick tier, campaigns in the thorough tier"
         if i not in ("C19","C20"):
             tech+="; every run is followed by a second pass of the quick tier with OxiDD built with debug assertions and overflow checks"
